@@ -2,23 +2,30 @@
 Model of `override.go` (C11): `getVersionsGreater`, the candidate scan of `patchVulns` with its `break`
 on the first disallowed difference, and the outer re-resolution loop for one package.
 
-Versions are ranks in the order `cmpFunc` induces (`mavenutil.CompareVersions` / `semver.Compare`);
-`vs` is `cl.Versions` after `slices.SortFunc`.  `diff` is `Semver().Difference` between ranks,
-`aff v r` says vulnerability `v` affects rank `r` (`vulns.IsAffected`).  Re-resolution is the parameter
-`resolve` (deps.dev resolver + override client): which version the graph holds after the requirement
-was patched to a rank.
+A version is an identifier (the position of its string in `cl.Versions` after `slices.SortFunc`); the
+order `cmpFunc` induces (`mavenutil.CompareVersions` / `semver.Compare`) is the function `rank` on
+identifiers — two differently spelled versions that compare equal (`1.0`, `1.0.0`) are two identifiers with
+one rank.  That a rank function exists at all is an assumption about the comparator (it must be a total
+preorder on the versions at hand): see `Scalibr.Upgrade.rank_exists_iff` and the Maven counterexample
+cited there.  `diff` is `Semver().Difference` between identifiers, `aff v x` says vulnerability `v`
+affects version `x` (`vulns.IsAffected`, which also looks at the record's explicit `versions` STRINGS, so
+it may tell two equal-ranked spellings apart).
 -/
 import Scalibr.Model.Upgrade
 namespace Scalibr.Override
 open Scalibr.Upgrade
 
-/-- `getVersionsGreater` on the sorted list: binary search for `vk`, skip it when found -/
-def versionsGreater (vs : List Nat) (vk : Nat) : List Nat :=
-  let off := (vs.takeWhile (· < vk)).length
-  if vs[off]? = some vk then vs.drop (off + 1) else vs.drop off
+/-- `getVersionsGreater` on the sorted list: `slices.BinarySearchFunc` returns the first index whose element
+does not compare below `vk` and whether it compares equal; an equal element is skipped (`offset++`), so
+further spellings of the same version — possibly `vk` itself — stay in the list. -/
+def versionsGreater (rank : Nat → Nat) (vs : List Nat) (vk : Nat) : List Nat :=
+  let off := (vs.takeWhile (fun x => rank x < rank vk)).length
+  match vs[off]? with
+  | some x => if rank x = rank vk then vs.drop (off + 1) else vs.drop off
+  | none => vs.drop off
 
 structure Cand where
-  rank : Nat
+  ver : Nat       -- version identifier
   diff : Nat      -- difference to vk
   count : Nat     -- vulnerabilities (of those affecting vk) that still affect this version
 deriving Repr, DecidableEq
@@ -41,27 +48,29 @@ def pick (level : Nat) (cands : List Cand) (n0 : Nat) : Option Cand :=
 
 /-- a one-package universe -/
 structure U where
-  vs : List Nat
+  vs : List Nat                 -- version identifiers in sorted order
+  rank : Nat → Nat              -- the comparator, as a rank
   diff : Nat → Nat → Nat
   nv : Nat
   aff : Nat → Nat → Bool
 
-def vulnsAt (u : U) (r : Nat) : List Nat := (List.range u.nv).filter (u.aff · r)
+def vulnsAt (u : U) (x : Nat) : List Nat := (List.range u.nv).filter (u.aff · x)
 
 def cands (u : U) (vk : Nat) : List Cand :=
-  (versionsGreater u.vs vk).map fun r => ⟨r, u.diff vk r, ((vulnsAt u vk).filter (u.aff · r)).length⟩
+  (versionsGreater u.rank u.vs vk).map fun x => ⟨x, u.diff vk x, ((vulnsAt u vk).filter (u.aff · x)).length⟩
 
 /-- one round for the package: `none` = nothing patched (no vulnerability left, level None, or no better version) -/
 def round (u : U) (level vk : Nat) : Option Nat :=
   if (vulnsAt u vk).isEmpty then none else
-  (pick level (cands u vk) (vulnsAt u vk).length).map (·.rank)
+  (pick level (cands u vk) (vulnsAt u vk).length).map (·.ver)
 
-/-- the outer `for { … }` of `patchVulns` -/
-def loop (u : U) (level : Nat) (resolve : Nat → Nat) : Nat → Nat → Nat
+/-- the outer `for { … }` of `patchVulns` when only this package moves: after `PatchRequirement` the graph holds
+the pinned version (the resolver law `HonoursPinsM` of the several-package model, specialised to one package) -/
+def loop (u : U) (level : Nat) : Nat → Nat → Nat
   | 0, vk => vk
   | fuel + 1, vk =>
     match round u level vk with
     | none => vk
-    | some b => loop u level resolve fuel (resolve b)
+    | some b => loop u level fuel b
 
 end Scalibr.Override
